@@ -12,12 +12,12 @@ COMMON_ASSUMPTIONS = [
 PROPS = {}
 
 PROPS['C20'] = {
-    'modules': ['c20', ('c10', ['R10.4'])],
+    'modules': ['c20', ('c10', ['R10.4']), ('siblings', ['SB2'])],
     'level': 'other',
     'quick_configs': ['default'],
     'thorough_configs': ['default', 'noalloc', 'nounicode', 'nostd'],
     'controls': [],
-    'floors': {'default': {'W1': 60, 'W1.bytes': 1, 'W2': 1, 'R10.4.hint': 1}},
+    'floors': {'default': {'W1': 60, 'W1.bytes': 1, 'W2': 1, 'R10.4.hint': 1, 'SB2': 1}},
     'rule_text': 'one obligation per overflow/division/shift site of the sector/cluster/offset arithmetic '
                  '(boot_sector.rs geometry helpers, fs.rs offset_from_*/DiskSlice, table.rs get/set/find_free/alloc): '
                  'discharged by the interval analysis under validated-BPB invariants or a reasoned table entry; the '
@@ -76,12 +76,12 @@ PROPS['C02'] = {
 }
 
 PROPS['C06'] = {
-    'modules': ['c06', 'fattype'],
+    'modules': ['c06', 'fattype', 'siblings'],
     'level': 'other',
     'quick_configs': ['default'],
     'thorough_configs': ALL,
     'controls': [],
-    'floors': {'default': {'V0': 50, 'V1': 10, 'V2': 8, 'V3': 1, 'V4': 10, 'V5': 6, 'FT1': 1}},
+    'floors': {'default': {'V0': 50, 'V1': 10, 'V2': 8, 'V3': 1, 'V4': 10, 'V5': 6, 'FT1': 1, 'SB1': 1, 'SB2': 1}},
     'rule_text': 'one obligation per device write of format_volume (dominated by the Ok edge of format_boot_sector and the '
                  'accepting edge of the strict self-validation: V1), per error construction in the layout code (only '
                  'InvalidInput; the validation failure is re-labelled InvalidInput: V2), the boot-sector copies (one '
@@ -205,7 +205,7 @@ PROPS['C12'] = {
     'quick_configs': ['default'],
     'thorough_configs': ALL,
     'controls': ['Q1'],
-    'floors': {'default': {'Q1': 6, 'Q1.c': 2}},
+    'floors': {'default': {'Q1': 6, 'Q1.c': 2, 'Q6': 1}},
     'rule_text': 'one obligation per raw device-write site (a call made while a guard of the `disk` cell is alive that '
                  'reaches a device write), per structural condition of the FS adapter, the unmount sequence, the '
                  'status-byte latch, the two status offsets and the status query; non-trivial = decided by dominance / '
@@ -217,9 +217,12 @@ PROPS['C12'] = {
                    'adapter no write can bypass the adapter (mono call graph). Unmount = FS-info flush then '
                    'set_dirty_flag(false) on every Ok path, from unmount() and Drop. The status byte written is '
                    'bpb.status_flags() with only `|= arg`, compared against a cache that is updated only after a '
-                   'successful write. The two offsets equal BPB.reserved_1 in both layouts. Does not decide that a '
-                   'size/first-cluster change through the entry write-back is always accompanied by a table write '
-                   '(that needs value reasoning) nor the byte value at every call boundary of every history.',
+                   'successful write. The two offsets equal BPB.reserved_1 in both layouts. Q6: the entry write-back never '
+                   'sets the flag itself, so File::truncate must, after changing the recorded size, cross '
+                   'set_dirty_flag(true) or a chain operation that writes the FAT on every Ok path (must-pass-through '
+                   'through truncate_cluster_chain and ClusterIterator::truncate; the no-current-cluster arm tested on '
+                   'entry is exempt because the iterator is freshly built with Some). Does not decide the byte value at '
+                   'every call boundary of every history.',
     'claim': 'Structural necessary conditions: closed set of classified device-write sites, adapter discipline, unmount '
              'order, latch coherence, offset agreement. Not the status byte value over histories.',
     'level_note': 'role "after FAT allocation" assumes a successful FAT entry write transfers at least one byte; the '
@@ -340,12 +343,12 @@ PROPS['C01'] = {
 }
 
 PROPS['C07'] = {
-    'modules': ['c07', 'fattype'],
+    'modules': ['c07', 'fattype', 'siblings'],
     'level': 'other',
     'quick_configs': ['default'],
     'thorough_configs': ALL,
     'controls': [],
-    'floors': {'default': {'M1': 25, 'M2a': 8, 'M2b': 13, 'M2c': 2, 'M2d': 11}},
+    'floors': {'default': {'M1': 25, 'M2a': 8, 'M2b': 13, 'M2c': 2, 'M2d': 11, 'SB1': 1, 'SB2': 1}},
     'rule_text': 'one obligation per panic site (MIR Assert or panicking library call) in a function reachable from '
                  'FileSystem::new, evaluated in every calling context by interval analysis; one per geometry condition '
                  'of the statement (range established at the Ok exit, rejecting comparison, width-consistency table, '
@@ -360,8 +363,10 @@ PROPS['C07'] = {
                    'on them; the residue is two table entries (documented storage-position debug assertion; the Read '
                    'contract n <= buf.len()). M2: ranges at the Ok exit of BootSector::validate, 13 rejecting comparisons, '
                    'the FAT-width consistency table over is_fat32 x all cluster counts, and must-calls of every validator '
-                   'whatever `strict`. M3: out-of-range FS-info counters are discarded. Not decided: that the accepted '
-                   'geometry equals an independent parse (arithmetic).',
+                   'whatever `strict`. M3: out-of-range FS-info counters are discarded. SB1/SB2 (sibling agreement): the '
+                   'mount-side root_dir_sectors / total_clusters perform the same rounding arithmetic as the format-side '
+                   'computations that laid the volume out. Not decided: that the accepted geometry equals an independent '
+                   'parse (arithmetic).',
     'claim': 'No panic/overflow on the mount path for any boot-sector and FS-info contents (all 2^(8*90) at once, by type '
              'ranges and validator-established invariants), and a rejecting branch for every geometry condition the '
              'statement lists. Equality with an independent parse is not decided.',
